@@ -6,19 +6,32 @@ From QV Require Import Lib.Corr Sys.Trace.
 Import ListNotations.
 Open Scope Z_scope.
 
-Record st := { nclient_out : Z; zero_rtt : bool; closer : Z; ok_end : bool }.
+Record st := { nclient_out : Z; zero_rtt : bool; closer : Z; ok_end : bool; closed : list key }.
 
 Definition step (s : st) (r : list Z) : option st :=
   if tag r =? 11 then None
-  else if tag r =? 12 then None
+  else if tag r =? 12 then
+    (* a drained connection produces no output (a leftover key-discard deadline is not output) *)
+    if (fld r 4 =? 0) && (fld r 5 =? 0) && (fld r 7 =? 0) then Some s else None
   else if tag r =? 4 then
     (* ConnectionLost between honest peers: only the peer's application close *)
-    if fld r 4 =? 3 then
-      if (fld r 5 =? 4) && ((fld r 6 =? 42) || (fld r 6 =? 43) || (fld r 6 =? 41)) then Some s else None
+    if (fld r 4 =? 3) && (ridx r <? 255) then
+      if (fld r 5 =? 4) && ((fld r 6 =? 42) || (fld r 6 =? 43) || (fld r 6 =? 41)) then Some s
+      (* the peer had to close before 1-RTT keys were usable: generic APPLICATION_ERROR (0x0c) *)
+      else if (fld r 5 =? 3) && (fld r 6 =? 12) && existsb (key_eqb (1 - rep r, ridx r)) (closed s) then Some s
+      (* the peer finished and closed, its close packet was lost: idle timeout (or a reset by the
+         endpoint that already forgot the connection) is the legitimate end *)
+      else if ((fld r 5 =? 6) || (fld r 5 =? 5)) && existsb (key_eqb (1 - rep r, ridx r)) (closed s) then Some s
+      else None
     else Some s
+  else if (tag r =? 3) && (fld r 4 =? 11) then
+    Some {| nclient_out := nclient_out s; zero_rtt := zero_rtt s; closer := closer s; ok_end := ok_end s;
+            closed := rkey r :: closed s |}
   else if tag r =? 14 then
     (* summary: [14,t,ep,ch,idx,connected,lost,closed_local,n_out,done_out,n_in,done_in,zombie] *)
+    if 255 <=? fld r 4 then Some s else
     let warm := zero_rtt s && (fld r 4 =? 0) in
+    if warm then Some s else
     let connected := fld r 5 =? 1 in
     let n_out := fld r 8 in
     let done_out := fld r 9 in
@@ -28,13 +41,13 @@ Definition step (s : st) (r : list Z) : option st :=
     if connected && (n_out =? done_out) && (n_in =? done_in) && (want <=? n_out) then Some s else None
   else if tag r =? 10 then
     (* the run ended because nothing was left to do (1), never by exhausting time or steps *)
-    if fld r 2 =? 1 then Some {| nclient_out := nclient_out s; zero_rtt := zero_rtt s; closer := closer s; ok_end := true |}
+    if fld r 2 =? 1 then Some {| nclient_out := nclient_out s; zero_rtt := zero_rtt s; closer := closer s; ok_end := true; closed := closed s |}
     else None
   else Some s.
 
 Definition monitor (i : ops) (o : outs) : option Z :=
   match run_from step 0 {| nclient_out := param i 9 1 + param i 10 0; zero_rtt := 0 <? param i 44 0;
-                           closer := param i 19 0; ok_end := false |} o with
+                           closer := param i 19 0; ok_end := false; closed := [] |} o with
   | (_, Some k) => Some k
   | (s, None) => if ok_end s then None else Some (-1 + Z.of_nat (length o))
   end.
